@@ -3,6 +3,7 @@ From Coq Require Import List ZArith Bool.
 Import ListNotations.
 From TI Require Import lib.Term lib.TermFacts lib.Rect lib.Lines model.Block model.GfxRender model.Padding
      proofs.BlockRect proofs.GfxRect proofs.PadProofs.
+From TI Require gen.OldPad proofs.OldPadTie.
 From TI Require gen.Pure proofs.PureTie.
 Open Scope Z_scope.
 
@@ -142,3 +143,111 @@ Theorem C05_source_padded_size_is_model :
   forall l t r b w h, Padding.padded_size (l, t, r, b) w h = TI.gen.Pure.padded_size l t r b w h.
 Proof. exact TI.proofs.PureTie.padded_size_is_model. Qed.
 Print Assumptions C05_source_padded_size_is_model.
+
+(** *** histories (round 4): the clauses above hold for EVERY output of EVERY history of
+    terminal resizes, [RenderIterator.set_padding] / [set_render_size] / [seek] / [next]
+    (frame cache on or off) and per-call paddings of the old image API ([format(image, spec)],
+    [draw(pad_width=, pad_height=)]) and of [Renderable.render(padding=)].
+
+    [PadHist.run] is the code as a fold over the history (state: terminal size, the
+    iterator's resolved padding and padded size, render size, next frame, the cache of BARE
+    frames); [PadHist.spec_descrs] describes each output as a function of the history
+    before it alone: the fill and the margins of the padding IN FORCE — for [next()] the
+    argument of the last [set_padding] resolved against the terminal size at that call, for
+    a per-call padding that padding resolved against the terminal size AT THE CALL
+    ([relative dimensions resolve to max(terminal + d, 1)], [C05_resolve]) — around the bare
+    frame at the render size in force.  The code's outputs are, one for one, [pad] of exactly
+    that, and each meets the render contract on exactly the padded box (lifting
+    [C05_pad_rect]). *)
+From TI Require Import model.PadTie model.PadHist proofs.PadHistProofs.
+
+Theorem C05_history_outputs :
+  forall bare lines need N tw th w h p0 cached steps,
+  (forall k w h, 0 < w -> 0 < h ->
+     bare k w h = joinlf (lines k w h) /\ LinesRect need w h (lines k w h)) ->
+  hist_wf N w h p0 steps = true ->
+  run bare N tw th w h p0 cached steps = map (render_descr bare) (spec_descrs N tw th w h p0 steps)
+  /\ Forall (fun d =>
+       let '(l, t, r, b) := d_dims d in
+       0 <= l /\ 0 <= t /\ 0 <= r /\ 0 <= b
+       /\ RectG (need' (d_fill d) need (d_w d) (d_h d) l t) (l + d_w d + r) (t + d_h d + b)
+                (pad (d_fill d) (d_dims d) (d_w d) (bare (d_k d) (d_w d) (d_h d))))
+     (spec_descrs N tw th w h p0 steps).
+Proof. exact hist_main. Qed.
+Print Assumptions C05_history_outputs.
+
+(** what [spec_descrs] puts in force, spelled out: [next()] after the history [rpre]
+    (most recent step first) ... *)
+Theorem C05_history_next_in_force :
+  forall N t0 s0 p0 rpre,
+  let p := fst (padding_of t0 p0 rpre) in
+  let tt := snd (padding_of t0 p0 rpre) in
+  let sz := size_of s0 rpre in
+  descr_next N t0 s0 p0 rpre =
+  {| d_fill := ps_fill p; d_dims := kind_dims (ps_kind p) (fst tt) (snd tt) (fst sz) (snd sz);
+     d_w := fst sz; d_h := snd sz; d_k := pos_of N rpre |}.
+Proof. exact descr_next_reads. Qed.
+Print Assumptions C05_history_next_in_force.
+
+(** ... and a call with its own padding: resolved against the terminal size of the most
+    recent resize; in particular a relative padding right after a resize to [(tw, th)]
+    has the margins of [max (tw + W) 1] x [max (th + H) 1] *)
+Theorem C05_history_call_in_force :
+  forall t0 rpre tw th W H ha va fill k w h,
+  (forall p, descr_call t0 rpre p k w h =
+     {| d_fill := ps_fill p;
+        d_dims := kind_dims (ps_kind p) (fst (term_of t0 rpre)) (snd (term_of t0 rpre)) w h;
+        d_w := w; d_h := h; d_k := k |})
+  /\ (relative W H = true ->
+      d_dims (descr_call t0 (HResize tw th :: rpre) {| ps_kind := PAligned W H ha va; ps_fill := fill |} k w h)
+      = aligned_dims (if W <=? 0 then Z.max (tw + W) 1 else W) (if H <=? 0 then Z.max (th + H) 1 else H)
+                     ha va w h).
+Proof.
+  intros; split; [intros p; exact (descr_call_reads t0 rpre p k w h)
+                 |exact (call_after_resize t0 rpre tw th W H ha va fill k w h)].
+Qed.
+Print Assumptions C05_history_call_in_force.
+
+(** the statement discriminates: a cache of PADDED frames validated by the padded size
+    alone, and a per-call padding memoised together with its resolution, both violate the
+    equation of [C05_history_outputs] on a well-formed history *)
+Theorem C05_history_excludes_size_keyed_cache :
+  exists steps,
+    hist_wf 2 2 2 (al 6 4 0 0 (Some GSpace)) steps = true
+    /\ run_sizecache ex_bare 2 (repeat None 2) (init_state 2 9 7 2 2 (al 6 4 0 0 (Some GSpace)) true) steps
+       <> map (render_descr ex_bare) (spec_descrs 2 9 7 2 2 (al 6 4 0 0 (Some GSpace)) steps).
+Proof. exact sizecache_refuted. Qed.
+Print Assumptions C05_history_excludes_size_keyed_cache.
+
+Theorem C05_history_excludes_resolution_memo :
+  exists steps,
+    hist_wf 1 2 2 (al 6 4 0 0 (Some GSpace)) steps = true
+    /\ run_memo ex_bare 1 [] (init_state 1 9 7 2 2 (al 6 4 0 0 (Some GSpace)) true) steps
+       <> map (render_descr ex_bare) (spec_descrs 1 9 7 2 2 (al 6 4 0 0 (Some GSpace)) steps).
+Proof. exact memo_refuted. Qed.
+Print Assumptions C05_history_excludes_resolution_memo.
+
+(** *** the old-API padding arithmetic tied to the source as theorems (T): [_format_render] (strings
+    of spaces translated to their lengths, the string-assembly statements matched verbatim) and
+    the pad-size resolution of [_check_formatting] are translated from [image/common.py] on every
+    run into [gen/OldPad.v] by [harness/tx/tx_oldpad.py]; for ALL arguments the model's [old_dims]
+    / [old_resolve] are the translated arithmetic, and the vertical padding lines are as wide as
+    the horizontally padded render *)
+Theorem C05_source_old_dims :
+  forall W H ha va w h,
+    old_dims W H ha va w h = TI.gen.OldPad.src_old_dims (Z.of_nat ha) W (Z.of_nat va) H w h.
+Proof. exact TI.proofs.OldPadTie.old_dims_is_source. Qed.
+Print Assumptions C05_source_old_dims.
+
+Theorem C05_source_old_resolve :
+  forall tw th W H, old_resolve tw th W H = TI.gen.OldPad.src_old_resolve tw th W H.
+Proof. exact TI.proofs.OldPadTie.old_resolve_is_source. Qed.
+Print Assumptions C05_source_old_resolve.
+
+Theorem C05_source_old_padded_width :
+  forall W H ha va w h,
+    (0 <= w)%Z ->
+    let '(l, t, r, b) := old_dims W H ha va w h in
+    TI.gen.OldPad.src_old_padded_width W w = (l + w + r)%Z.
+Proof. exact TI.proofs.OldPadTie.old_padded_width_is_box_width. Qed.
+Print Assumptions C05_source_old_padded_width.
